@@ -72,7 +72,7 @@ def main():
             lines = [ln for ln in p.stdout.splitlines() if ln.startswith("VIOLATION") or ln.startswith("  oracle=")
                      or ln.startswith("KNOWN-FINDING") or "unlisted violation class" in ln]
             results[pid] = {"cmd": " ".join(cmd) + f"  (QSIM_REPO={wt})", "exit": p.returncode, "wall_s": round(time.time() - t0, 1),
-                            "detected": p.returncode == 1,
+                            "detected": p.returncode == 1 and any(ln.startswith("VIOLATION") for ln in p.stdout.splitlines()),
                             "report": [ln[:400] for ln in lines if not ln.startswith("KNOWN-FINDING")][:12],
                             "stderr_tail": p.stderr[-400:] if p.returncode == 2 else ""}
             # keep the replay of the first violation next to the seeded change
